@@ -32,7 +32,8 @@ RULE = ('generated reference problems (5-8 leaves, 2-3 levels, 10-16 genes, '
         '8-20 query cells); per stage the ungated run fixes n_workers, then '
         'every (thorough; 8 sampled on the 4th problem) / 5 (quick) of the completion orders feasible for '
         '(n_workers, n_processors) as enumerated by the Lean model, gating '
-        'modes entry/exit; hash seeds {0,random} (quick) / {0,1,2,random} '
+        'modes entry/exit; hash seeds {0,1,2,3} (quick; wide-taxonomy mapping and statistics-from-'
+        'columns in all four, the seven stage fixtures in two) / {0,1,2,3,random} '
         '(thorough); worker counts 2..4 with equal effective chunk size. '
         'non-trivial = forced order different from dispatch order on a stage '
         'with >=2 workers, or a pair of runs with different hash seed / '
@@ -392,17 +393,29 @@ def cache_case(ctx, d, detail):
                 break
 
 
-def hash_seed_runs(ctx, prob_seed, n_leaves, n_proc, base, seeds):
-    # the selection gets its query gene names as a set (what the CLI passes
-    # when there is no query file): set iteration order is what the hash seed
-    # changes
-    spec = {'prob_seed': prob_seed, 'n_leaves': n_leaves, 'n_proc': n_proc,
-            'fixtures': FIXTURES, 'selection_query_as_set': True}
+def hash_seed_runs(ctx, prob_seed, n_leaves, n_proc, base, seeds,
+                   full_seeds=None):
+    """separate interpreter runs under PYTHONHASHSEED = each of `seeds`.
+    Every run does the wide-taxonomy fixtures (stagefix.HASHSEED_EXTRA: the
+    mapping with >= 32 cells per chunk over >= 3 sibling parents per level,
+    the statistics with the taxonomy read from label columns); the runs in
+    `full_seeds` (default: all) also do the seven stage fixtures.  Each
+    result is compared with the in-process run (`base`) and with the first
+    subprocess run."""
+    full_seeds = list(seeds) if full_seeds is None else full_seeds
     env = dict(os.environ)
     env['PYTHONPATH'] = os.pathsep.join(
         [str(core.VERIF / 'harness')] +
         ([env['PYTHONPATH']] if env.get('PYTHONPATH') else []))
+    first = {}
     for hs in seeds:
+        # the selection gets its query gene names as a set (what the CLI
+        # passes when there is no query file): set iteration order is what
+        # the hash seed changes
+        spec = {'prob_seed': prob_seed, 'n_leaves': n_leaves,
+                'n_proc': n_proc, 'wide': True,
+                'fixtures': FIXTURES if hs in full_seeds else [],
+                'selection_query_as_set': True}
         # one after the other: each run starts up to n_proc workers itself
         e = dict(env)
         e['PYTHONHASHSEED'] = hs
@@ -417,23 +430,43 @@ def hash_seed_runs(ctx, prob_seed, n_leaves, n_proc, base, seeds):
                                   % (hs, errtxt[-500:]))
         got = json.loads(line[-1][len('CANONICAL '):])
         key_order = got.pop('selection.key_order', None)
-        for fixture in FIXTURES:
+        for fixture in sorted(got):
             detail = {'kind': 'hashseed', 'fixture': fixture,
                       'prob_seed': prob_seed, 'n_leaves': n_leaves,
                       'n_processors': n_proc, 'PYTHONHASHSEED': hs}
             ctx.case(('hashseed', fixture, prob_seed, hs), sample=None)
             ctx.count('hashseed:' + hs)
-            if got[fixture] != base[fixture]:
-                detail['differs_in'] = diff_keys(base[fixture],
-                                                 got[fixture])[:8]
-                ctx.violation('C04/hashseed/%s/output-differs' % fixture,
-                              '%s: output under PYTHONHASHSEED=%s differs '
-                              'from the in-process run in %s'
-                              % (fixture, hs, detail['differs_in']), detail)
+            refs = []
+            if fixture in base:
+                refs.append(('the in-process run', base[fixture]))
+            if fixture in first:
+                refs.append(('the run under PYTHONHASHSEED=%s'
+                             % first[fixture][0], first[fixture][1]))
+            else:
+                first[fixture] = (hs, got[fixture])
+            for what, ref in refs:
+                if got[fixture] != ref:
+                    detail['compared_with'] = what
+                    detail['differs_in'] = diff_keys(ref, got[fixture])[:8]
+                    ctx.violation(
+                        'C04/hashseed/%s/output-differs' % fixture,
+                        '%s: output under PYTHONHASHSEED=%s differs from '
+                        '%s in %s' % (fixture, hs, what,
+                                      detail['differs_in']), detail)
+                    break
         ctx.log('hash seed %s: selection key order %r' % (hs, key_order))
 
 
-def run_problem(ctx, prob_seed, n_leaves, n_proc, n_orders, hash_seeds):
+def wide_base(prob_seed):
+    """in-process run of the wide-taxonomy fixtures"""
+    with pipeline.workdir('ctmverif_c04_') as d:
+        with pipeline.quiet():
+            out = stagefix.run_wide_canonical(prob_seed, d)
+    return json.loads(json.dumps(out, sort_keys=True))
+
+
+def run_problem(ctx, prob_seed, n_leaves, n_proc, n_orders, hash_seeds,
+                full_seeds=None):
     rng = ctx.rng
     prob = c14suite.make_problem(prob_seed, n_leaves)
     base_all = {}
@@ -479,7 +512,9 @@ def run_problem(ctx, prob_seed, n_leaves, n_proc, n_orders, hash_seeds):
                 check_nproc(ctx, st, prob_seed, n_leaves, n_proc, base)
             c14suite.clear(st)
     if hash_seeds:
-        hash_seed_runs(ctx, prob_seed, n_leaves, n_proc, base_all, hash_seeds)
+        base_all.update(wide_base(prob_seed))
+        hash_seed_runs(ctx, prob_seed, n_leaves, n_proc, base_all, hash_seeds,
+                       full_seeds)
 
 
 def translate(ctx):
@@ -500,16 +535,17 @@ def run(ctx):
     check_marker_cache_order(ctx, rng, 40 if ctx.tier == 'quick' else 300)
     if ctx.tier == 'quick':
         run_problem(ctx, rng.randrange(2 ** 31), rng.choice([7, 8]), 3,
-                    n_orders=5, hash_seeds=['0', 'random'])
+                    n_orders=5, hash_seeds=['0', '1', '2', '3'],
+                    full_seeds=['0', '3'])
     else:
         run_problem(ctx, rng.randrange(2 ** 31), 8, 4, n_orders=None,
-                    hash_seeds=['0', '1', '2', 'random'])
+                    hash_seeds=['0', '1', '2', '3', 'random'])
         run_problem(ctx, rng.randrange(2 ** 31), 7, 2, n_orders=None,
                     hash_seeds=[])
         run_problem(ctx, rng.randrange(2 ** 31), 6, 3, n_orders=None,
                     hash_seeds=[])
         run_problem(ctx, rng.randrange(2 ** 31), 8, 3, n_orders=8,
-                    hash_seeds=['random'])
+                    hash_seeds=['1', '2', 'random'], full_seeds=['random'])
 
 
 def replay(ctx, data, from_corpus=False):
@@ -555,16 +591,21 @@ def replay(ctx, data, from_corpus=False):
             check_nproc(ctx, st, d['prob_seed'], d.get('n_leaves'),
                         d['n_processors'][0], canon_of(st, 'mapping'))
     elif kind == 'hashseed':
-        prob = c14suite.make_problem(d['prob_seed'], d.get('n_leaves'))
-        with pipeline.workdir('ctmverif_c04_') as wd:
-            base = {}
-            for fixture in FIXTURES:
-                with pipeline.quiet():
-                    st = stagefix.STAGES[fixture](prob, wd)
-                run_plain(st, d['n_processors'])
-                base[fixture] = canon_of(st, fixture)
+        base = {}
+        if d['fixture'] in FIXTURES:
+            prob = c14suite.make_problem(d['prob_seed'], d.get('n_leaves'))
+            with pipeline.workdir('ctmverif_c04_') as wd:
+                for fixture in FIXTURES:
+                    with pipeline.quiet():
+                        st = stagefix.STAGES[fixture](prob, wd)
+                    run_plain(st, d['n_processors'])
+                    base[fixture] = canon_of(st, fixture)
+        base.update(wide_base(d['prob_seed']))
+        seeds = [d['PYTHONHASHSEED']] + [h for h in ('0', '1', '2', '3')
+                                         if h != d['PYTHONHASHSEED']]
         hash_seed_runs(ctx, d['prob_seed'], d.get('n_leaves'),
-                       d['n_processors'], base, [d['PYTHONHASHSEED']])
+                       d['n_processors'], base, seeds,
+                       full_seeds=seeds if d['fixture'] in FIXTURES else [])
     elif kind == 'reorder':
         rng = random.Random(0)
         # re-check the recorded blob through the same code path
